@@ -300,3 +300,43 @@ mut("C04", "r4-foreign-writer", "config/option.go",
     "func (option *Option) Export() (record.Record, error) {\n\toption.Lock()\n\tdefer option.Unlock()\n", "func (option *Option) Export() (record.Record, error) {\n\toption.Lock()\n\tdefer option.Unlock()\n\tif option.activeValue == option.activeDefaultValue {\n\t\toption.activeValue = nil\n\t}\n", "C04-R4|Export")
 mut("C04", "r5-safe-bool-wrong-type", "config/get-safe.go",
     "\toption, valueCache := getValueCache(name, nil, OptTypeBool)", "\toption, valueCache := getValueCache(name, nil, OptTypeInt)", "C04-R5|(*safe).GetAsBool")
+
+# ---- C12 -------------------------------------------------------------------
+mut("C12", "r1-no-auth-check", "api/router.go",
+    "\tif apiRequest.AuthToken == nil {\n\t\t// Authenticator already replied.\n\t\treturn nil\n\t}\n", "", "C12-R1|authenticateRequest(...) != nil", canary=True)
+mut("C12", "r1-origin-default-falls-through", "api/router.go",
+    "\t\t\thttp.Error(lrw, \"Cross-Origin Request Denied.\", http.StatusForbidden)\n\t\t\treturn nil\n", "\t\t\thttp.Error(lrw, \"Cross-Origin Request Denied.\", http.StatusForbidden)\n", "C12-R1|origin decision")
+mut("C12", "r1-origin-suffix-match", "api/router.go",
+    "\t\tcase originURL.Hostname() == r.Host:", "\t\tcase strings.HasSuffix(r.Host, originURL.Hostname()):", "C12-R1|origin decision")
+mut("C12", "r1-dev-origins-without-devmode", "api/router.go",
+    "\t\tcase devMode() &&\n\t\t\tutils.StringInSlice(allowedDevCORSOrigins, originURL.Hostname()):", "\t\tcase utils.StringInSlice(allowedDevCORSOrigins, originURL.Hostname()):", "C12-R1|dev origin list consulted")
+mut("C12", "r1-module-not-ready-served", "api/router.go",
+    "\t\tif !moduleIsReady(moduleHandler.BelongsTo()) {\n\t\t\thttp.Error(lrw, \"The API endpoint is not ready yet. Reload (F5) to try again.\", http.StatusServiceUnavailable)\n\t\t\treturn nil\n\t\t}", "\t\tif !moduleIsReady(moduleHandler.BelongsTo()) {\n\t\t\ttracer.Debug(\"api: module not ready\")\n\t\t}", "C12-R1|module ready")
+mut("C12", "r2-compare-inverted", "api/authentication.go",
+    "\tif requestPermission < requiredPermission {", "\tif requestPermission > requiredPermission {", "C12-R2|decision table")
+mut("C12", "r2-read-uses-write-token", "api/authentication.go",
+    "\tif readMethod {\n\t\trequestPermission = token.Read\n\t} else {\n\t\trequestPermission = token.Write\n\t}", "\tif readMethod {\n\t\trequestPermission = token.Write\n\t} else {\n\t\trequestPermission = token.Read\n\t}", "C12-R2|decision table")
+mut("C12", "r2-handled-ignored", "api/authentication.go",
+    "\tswitch {\n\tcase handled:\n\t\treturn nil\n\tcase token == nil:", "\tswitch {\n\tcase handled && token == nil && requiredPermission > PermitUser:\n\t\treturn nil\n\tcase token == nil:", "C12-R2|decision table")
+mut("C12", "r2-no-range-check", "api/authentication.go",
+    "\tif requestPermission < PermitAnyone || requestPermission > PermitSelf {\n\t\ttracer.Warningf(\n\t\t\t\"api: authenticator returned invalid permission", "\tif requestPermission < PermitAnyone {\n\t\ttracer.Warningf(\n\t\t\t\"api: authenticator returned invalid permission", "C12-R2|decision table")
+mut("C12", "r2-notsupported-continues", "api/authentication.go",
+    "\tcase NotSupported:\n\t\t// A read or write permission can be marked as not supported.\n\t\ttracer.Trace(\"api: authenticated handler reported: not supported\")\n\t\thttp.Error(w, \"Method not allowed.\", http.StatusMethodNotAllowed)\n\t\treturn nil", "\tcase NotSupported:\n\t\t// A read or write permission can be marked as not supported.\n\t\ttracer.Trace(\"api: authenticated handler reported: not supported\")\n\t\trequiredPermission = PermitAnyone", "C12-R2|decision table")
+mut("C12", "r3-apikey-no-expiry-check", "api/authentication.go",
+    "\tif token.ValidUntil != nil && time.Now().After(*token.ValidUntil) {\n\t\tlog.Tracer(r.Context()).Warningf(\"api: denying api access from %s using expired token\", r.RemoteAddr)\n\t\treturn nil\n\t}\n", "", "C12-R3|expiry checked")
+mut("C12", "r3-session-no-expiry", "api/authentication.go",
+    "\tif sess.Expired() {\n\t\tlog.Tracer(r.Context()).Tracef(\"api: provided session cookie %s has expired\", c.Value)\n\t\treturn nil\n\t}\n", "", "C12-R3|checkSessionCookie")
+mut("C12", "r3-bridge-self", "api/authentication.go",
+    "\t\t\tRead:  dbCompatibilityPermission,\n\t\t\tWrite: dbCompatibilityPermission,", "\t\t\tRead:  PermitSelf,\n\t\t\tWrite: PermitSelf,", "C12-R3|token literal PermitSelf")
+mut("C12", "r3-parse-self", "api/authentication.go",
+    "\tcase \"admin\":\n\t\treturn PermitAdmin, nil", "\tcase \"admin\":\n\t\treturn PermitAdmin, nil\n\tcase \"self\":\n\t\treturn PermitSelf, nil", "C12-R3|parseAPIPermission")
+mut("C12", "r3-keys-empty-early-return", "api/authentication.go",
+    "\tlog.Debug(\"api: importing possibly updated API keys from config\")\n", "\tlog.Debug(\"api: importing possibly updated API keys from config\")\n\tif len(configuredAPIKeys()) == 0 {\n\t\treturn nil\n\t}\n", "C12-R3|after clearing the key map")
+mut("C12", "r3-expired-key-stored", "api/authentication.go",
+    "\t\t\tif time.Now().After(validUntil) {\n\t\t\t\t// mark the key as expired so we'll remove it from the setting afterwards\n\t\t\t\thasExpiredKeys = true\n\n\t\t\t\tcontinue\n\t\t\t}", "\t\t\tif time.Now().After(validUntil) {\n\t\t\t\t// mark the key as expired so we'll remove it from the setting afterwards\n\t\t\t\thasExpiredKeys = true\n\t\t\t}", "C12-R3|expired keys are not stored")
+mut("C12", "r4-short-key-slice", "api/authentication.go",
+    "\t\tkeyHint := key\n\t\tif len(keyHint) > 4 {\n\t\t\tkeyHint = keyHint[:4]\n\t\t}", "\t\tkeyHint := key[:4]", "C12-R4|slice", comment="reverts fix aad8502")
+mut("C12", "r5-delete-is-read", "api/authentication.go",
+    "\tcase http.MethodGet, http.MethodHead:\n\t\treturn http.MethodGet, true, true\n\tcase http.MethodPost, http.MethodPut, http.MethodDelete:", "\tcase http.MethodGet, http.MethodHead, http.MethodDelete:\n\t\treturn http.MethodGet, true, true\n\tcase http.MethodPost, http.MethodPut:", "C12-R5|method class table")
+mut("C12", "r5-write-returns-read", "api/endpoints.go",
+    "\tif apiEndpoint != nil {\n\t\treturn apiEndpoint.Write\n\t}", "\tif apiEndpoint != nil {\n\t\treturn apiEndpoint.Read\n\t}", "C12-R5|WritePermission")
